@@ -1746,47 +1746,111 @@ Qed.
 (* ================================================================== *)
 (* the results log                                                       *)
 (* ================================================================== *)
-Definition log_ok (rows : list row) (out : list (nat * Z)) (used : list (option (list Z))) : Prop :=
-  map row_key rows = out /\ map row_extra rows = map ans_cols used.
+(* one row per delivered result, in delivery order; the k-th row carries the composer's k-th answer *)
+Definition log_ok (comp : nat -> option (list Z)) (rows : list row) (out : list (nat * Z)) (n : nat) : Prop :=
+  map row_key rows = out /\ length rows = n /\
+  map row_extra rows = map (fun k => ans_cols (comp k)) (seq 0 n).
 
-Lemma next_ans_take comp : forall ans comp', next_ans comp = (ans, comp') ->
-  (comp = ans :: comp') \/ (comp = [] /\ ans = None /\ comp' = []).
-Proof. destruct comp; simpl; intros ans comp' H; inversion H; auto. Qed.
-
-(* the first loop of _update_running_trials and the log: same skips, one row per delivered result *)
-Lemma log_loop_ok bk batch : forall decs comp done ts out rows used ts' out' done' rows' comp',
-  update_loop bk batch decs done ts out = (ts', out', done') ->
-  log_loop batch decs comp done rows = (rows', comp') ->
-  log_ok rows out used ->
-  exists used', log_ok rows' out' (used ++ used') /\
-                (forall rest, comp = map Some rest ++ comp' -> True) /\
-                (map ans_cols used' = map ans_cols (firstn (length used') (comp ++ repeat None (length used')))).
+Lemma log_ok_snoc comp rows out n i v :
+  log_ok comp rows out n -> log_ok comp (rows ++ [store_row i v (comp n)]) (out ++ [(i, v)]) (S n).
 Proof.
-  induction batch as [|[i r] rest IH]; intros decs comp done ts out rows used ts' out' done' rows' comp' U L H; simpl in U, L.
-  - inversion U; inversion L; subst. exists []. rewrite app_nil_r. repeat split; auto.
-  - destruct (mem_nat i done).
+  intros (Hk & Hl & He). split; [rewrite map_app, Hk; reflexivity|]. split; [rewrite app_length; simpl; lia|].
+  rewrite seq_S, !map_app, He. reflexivity.
+Qed.
+
+Lemma log_loop_ok bk comp batch : forall decs done ts out n rows ts' out' done' rows' n',
+  update_loop bk batch decs done ts out = (ts', out', done') ->
+  log_loop comp batch decs done n rows = (rows', n') ->
+  log_ok comp rows out n -> log_ok comp rows' out' n'.
+Proof.
+  induction batch as [|[i r] rest IH]; intros decs done ts out n rows ts' out' done' rows' n' U L H; simpl in U, L.
+  - inversion U; inversion L; subst. exact H.
+  - destruct (mem_nat i done); [eapply IH; eauto|].
+    destruct (next_dec decs) as [[d late] decs'] eqn:En.
+    pose proof (log_ok_snoc comp rows out n i (snd r) H) as H1.
+    destruct d.
     + eapply IH; eauto.
-    + destruct (next_dec decs) as [[d late] decs'] eqn:En.
-      destruct (next_ans comp) as [ans comp1] eqn:Ea.
-      assert (H1 : log_ok (rows ++ [store_row i (snd r) ans]) (out ++ [(i, snd r)]) (used ++ [ans])).
-      { destruct H as (Hk & He). split; rewrite !map_app; simpl; [rewrite Hk|rewrite He]; reflexivity. }
-      assert (Hstep : forall done1 ts1,
-                update_loop bk rest decs' done1 ts1 (out ++ [(i, snd r)]) = (ts', out', done') ->
-                log_loop rest decs' comp1 done1 (rows ++ [store_row i (snd r) ans]) = (rows', comp') ->
-                exists used', log_ok rows' out' (used ++ used') /\ (forall rest0, comp = map Some rest0 ++ comp' -> True) /\
-                  map ans_cols used' = map ans_cols (firstn (length used') (comp ++ repeat None (length used')))).
-      { intros done1 ts1 U1 L1.
-        destruct (IH _ _ _ _ _ _ (used ++ [ans]) _ _ _ _ _ U1 L1 H1) as (u' & Hok & _ & Hu).
-        exists (ans :: u'). rewrite <- app_assoc in Hok. simpl in Hok. split; [exact Hok|]. split; [auto|].
-        simpl. destruct (next_ans_take _ _ _ Ea) as [->|(-> & -> & ->)]; simpl.
-        - f_equal. rewrite Hu. f_equal. f_equal.
-          rewrite <- (firstn_all (repeat None (length u'))) at 1.
-          clear. generalize (length u'). intros n. revert comp1. induction n; intros; simpl; [rewrite app_nil_r; reflexivity|].
-          change (None :: repeat None n) with ([@None (list Z)] ++ repeat None n).
-          rewrite (repeat_cons n (@None (list Z))). rewrite app_assoc. reflexivity.
-        - f_equal. rewrite Hu. simpl. reflexivity. }
-      destruct d.
-      * eapply Hstep; eauto.
-      * eapply Hstep; eauto.
-      * destruct (status_eqb (status_at ts i) Completed); eapply Hstep; eauto.
+    + eapply IH; eauto.
+    + destruct (status_eqb (status_at ts i) Completed); eapply IH; eauto.
+Qed.
+
+Lemma step_log_ok bk comp st e st' x n rows :
+  log_ok comp rows (out st) n -> step bk st e = (st', x) ->
+  let '(rows1, n1) := match e with Poll ids decs => poll_log bk comp st ids decs n rows | _ => (rows, n) end in
+  log_ok comp rows1 (out st') n1.
+Proof.
+  intros H F. destruct e as [w|reps|i reps|ids decs|ids|i late|i late]; simpl in F.
+  - inversion F; subst; exact H.
+  - inversion F; subst; exact H.
+  - destruct (nth_error (trials st) i); [|inversion F; subst; exact H].
+    destruct (status_eqb _ Paused); inversion F; subst; exact H.
+  - unfold poll_log. destruct (ids_ok (trials st) ids); [|inversion F; subst; exact H].
+    destruct (fetch bk ids (trials st)) as [ts1 b] eqn:Ef. simpl.
+    destruct (update_loop bk b decs [] ts1 (out st)) as [[ts2 out2] done2] eqn:Eu.
+    inversion F; subst; simpl.
+    destruct (log_loop comp b decs [] n rows) as [rows1 n1] eqn:El.
+    eapply log_loop_ok; eauto.
+  - destruct (ids_ok (trials st) ids); [|inversion F; subst; exact H].
+    destruct (fetch bk ids (trials st)) as [ts1 b]. inversion F; subst; exact H.
+  - destruct (Nat.ltb i (length (trials st))); inversion F; subst; exact H.
+  - destruct (Nat.ltb i (length (trials st))); inversion F; subst; exact H.
+Qed.
+
+Lemma run_log_ok bk comp evs : forall st st' x n rows rows' n',
+  log_ok comp rows (out st) n -> run bk st evs = (st', x) -> run_log bk comp st evs n rows = (rows', n') ->
+  log_ok comp rows' (out st') n'.
+Proof.
+  induction evs as [|e r IH]; intros st st' x n rows rows' n' H F L; simpl in F, L.
+  - inversion F; inversion L; subst. exact H.
+  - destruct (step bk st e) as [st1 [y|]] eqn:Es.
+    + pose proof (step_log_ok bk comp st e st1 (Some y) n rows H Es) as H1.
+      destruct (match e with Poll ids decs => poll_log bk comp st ids decs n rows | _ => (rows, n) end) as [rows1 n1].
+      inversion F; inversion L; subst. exact H1.
+    + pose proof (step_log_ok bk comp st e st1 None n rows H Es) as H1.
+      destruct (match e with Poll ids decs => poll_log bk comp st ids decs n rows | _ => (rows, n) end) as [rows1 n1].
+      eapply IH; eauto.
+Qed.
+
+Theorem results_log_is_delivery bk comp evs st x rows n :
+  run bk init evs = (st, x) -> run_log bk comp init evs 0 [] = (rows, n) ->
+  map row_key rows = out st /\ length rows = n /\
+  map row_extra rows = map (fun k => ans_cols (comp k)) (seq 0 n).
+Proof.
+  intros F L. apply (run_log_ok bk comp evs init st x 0 [] rows n); auto.
+  repeat split.
+Qed.
+
+(* a callback that leaves the row out when the composer answers None loses delivered results *)
+Lemma log_example :
+  let evs := [ Start [(1, 0%Z); (2, 1%Z)]; W (Emit 0%nat 2%nat); Poll [0%nat] [] ]%Q in
+  let comp := fun k : nat => match k with O => None | _ => Some [7%Z] end in
+  exists st, run Generic init evs = (st, None) /\
+    out st = [(0%nat, 0%Z); (0%nat, 1%Z)] /\
+    fst (run_log Generic comp init evs 0 []) = [(0%nat, 0%Z, []); (0%nat, 1%Z, [7%Z])].
+Proof. eexists. split; [vm_compute; reflexivity|]. split; vm_compute; reflexivity. Qed.
+
+(* ================================================================== *)
+(* a worker that survives pause_trial                                    *)
+(* ================================================================== *)
+Fixpoint no_zombie (zs : list zev) : list ev :=
+  match zs with [] => [] | ZE e :: r => e :: no_zombie r | ZombieWrite _ _ :: r => no_zombie r end.
+Definition zombie_free (zs : list zev) : Prop := Forall (fun z => match z with ZE _ => True | _ => False end) zs.
+
+Lemma zrun_zombie_free zs : forall st, zombie_free zs -> zrun st zs = run Generic st (no_zombie zs).
+Proof.
+  induction zs as [|z r IH]; intros st H; simpl; auto.
+  inversion H as [|? ? Hz Hr]; subst. destruct z as [e|i reps]; [|destruct Hz]. simpl.
+  destruct (step Generic st e) as [st1 [y|]]; auto.
+Qed.
+
+Lemma zombie_witness :
+  exists zs st t,
+    zrun init zs = (st, None) /\ nth_error (trials st) 0%nat = Some t /\
+    runs_of t = [ ([(1, 0%Z); (2, 1%Z); (3, 2%Z)], [(1, 0%Z)], Decided);
+                  ([(4, 100%Z)], [(2, 1%Z); (4, 100%Z)], Live) ]%Q.
+Proof.
+  exists [ ZE (Start [(1, 0%Z); (2, 1%Z); (3, 2%Z)]); ZE (W (Emit 0%nat 1%nat)); ZE (Poll [0%nat] [(PAUSE, 0%nat)]);
+           ZE (Resume 0%nat [(4, 100%Z)]); ZombieWrite 0%nat [(2, 1%Z)]; ZE (W (Emit 0%nat 1%nat));
+           ZE (Poll [0%nat] []) ]%Q.
+  eexists. eexists. split; [vm_compute; reflexivity|]. split; vm_compute; reflexivity.
 Qed.
